@@ -719,6 +719,7 @@ func (s *storage) Shrink(stopAfter time.Duration) bool {
 			}
 			if !table.isFree && table.Len() == 0 {
 				s.archetypes[table.archetype].FreeTable(table)
+				s.cache.removeTable(table)
 				anyFound = true
 			}
 		}
